@@ -12,7 +12,7 @@ SOURCES = [
     ("consts", "a = 1\nb = -1\nc = 2**31\nd = 2**63\ne = 2**200 + 7\nf = 1.5\ng = -0.0\nh = 1e999\ni = 1j\nj = 'abc'\nk = b'\\xff\\x00'\n"
                "l = u'h\\xe9llo \\u4e2d'\nm = (1, 2, (3, 4))\nn = None\no = True\np = ...\n" if PY3 else
                "a = 1\nb = -1\nc = 2**31\nd = 2**63\ne = 2**200 + 7\nf = 1.5\ng = -0.0\nh = 1e999\ni = 1j\nj = 'abc'\nk = '\\xff\\x00'\n"
-               "l = u'h\\xe9llo \\u4e2d'\nm = (1, 2, (3, 4))\nn = None\no = True\n"),
+               "l = u'h\\xe9llo \\u4e2d'\nm = (1, 2, (3, 4))\nn = None\no = True\np64 = (-2**40, 2**40 + 3, -5000000000, -2147483649, 2**62)\n"),
     ("closure", "def outer(a, b=2, *c, **d):\n    x = a\n    def inner(y):\n        return x + y + a + b\n    return inner\n"),
     ("klass", "class K(object):\n    '''doc'''\n    z = 3\n    def m(self, q):\n        return [i * q for i in range(self.z)]\n"),
     ("sets", "def f(v):\n    return v in {1, 2, 3} or v in ('a', 'b') or v in frozenset([9])\n" if V >= (3, 2) else "def f(v):\n    return v in (1, 2, 3)\n"),
@@ -36,6 +36,8 @@ SOURCES += [
     ("deco", "def dec(f):\n    return f\n@dec\nclass C(object):\n    a = 1\n    @staticmethod\n    def s(x=1, *y, **z):\n        return x\n    @property\n    def p(self):\n        return self.a\n"
              "    def m(self):\n        return super(C, self).__init__()\n"),
 ]
+if not PY3:
+    SOURCES.append(("py2zoo", "def old(a, b, tb):\n    print >>a, b,\n    print a\n    exec 'x = 1' in {}\n    y = `a`\n    z = a <> b\n    try:\n        raise ValueError, b, tb\n    except ValueError, e:\n        raise e\n    return 0777, 10L, ur'x'\n"))
 if V >= (3, 6):
     SOURCES.append(("fstr", "def fs(a, b):\n    v: int = 3\n    return f'{a!r:>{b}} and {a + b:.2f} {v}' + f'{a}'\n"))
 if V >= (3, 10):
